@@ -3,5 +3,5 @@
 mod c11;
 
 fn main() {
-    vh::main_loop(c11::run_line);
+    c11::main_entry();
 }
